@@ -155,6 +155,17 @@ func (d *distCtx) eval(pdf interface{}) []float64 {
 		out = snapScalar(out, r)
 	}
 	switch p := pdf.(type) {
+	case interface {
+		LogPdf(r Scalar, mu Vector, sigma Matrix) error
+		Dim() int
+	}:
+		// normal inverse Wishart: a point is (mu, sigma)
+		n := p.Dim()
+		for i := 0; i+n+n*n <= len(xs); i += n + n*n {
+			mu := NewDenseFloat64Vector(cp(xs[i : i+n]))
+			sg := NewDenseFloat64Matrix(cp(xs[i+n:i+n+n*n]), n, n)
+			one(func(r Scalar) error { return p.LogPdf(r, mu, sg) })
+		}
 	case ScalarPdf:
 		for _, x := range xs {
 			x := x
